@@ -67,7 +67,16 @@ func checkC13(c *Ctx) {
 	byKind := map[string]int{}
 	parallel(nprog*len(cfgs), 6, func(k int) {
 		i, cfg := k/len(cfgs), cfgs[k%len(cfgs)]
-		p := generate(subRand(c.Seed, "c13", c.Tier, i), GenOpts{NoTests: true, MinFeats: 6, MaxFeats: 10})
+		// Every program contains identifiers that collide within a package (same field name in two
+		// structs, a function named like a field) next to a random selection of the other features.
+		pr := subRand(c.Seed, "c13", c.Tier, i)
+		var feats []string
+		for _, f := range pickWith(pr, "samenames", 8) {
+			if f != "tests" {
+				feats = append(feats, f)
+			}
+		}
+		p := generate(pr, GenOpts{Features: feats})
 		w := materialize(p, fmt.Sprintf("c13p%d", k))
 		defer w.cleanup()
 		if !plainReference(c, w, filepath.Join(w.Root, "plain.bin"), false) {
